@@ -3,7 +3,7 @@
    lists of thread choices, any number of producers, any flow keys, any channel capacity, sync.Pool
    handing back any channel that was put). *)
 From Coq Require Import List Arith Bool ZArith.
-From Dae Require Import C13_Spec C13_Model C13_Proofs C13_Inv C13_EpModel C13_EpProofs C13_EpTuples.
+From Dae Require Import C13_Spec C13_Model C13_Proofs C13_Inv C13_EpModel C13_EpProofs C13_EpTuples C13_EpFine C13_EpFineWit.
 Import ListNotations.
 
 (* The full statement: for every schedule the history satisfies the spec's safety clause (per flow the
@@ -124,6 +124,28 @@ Theorem C13_endpoint_tuples :
     /\ (forall e u, nth_error (p_eps (prun ops)) e = Some u -> u_cs_closed u = true -> owns g t u = false).
 Proof. exact C13_endpoint_tuples_proof. Qed.
 Print Assumptions C13_endpoint_tuples.
+
+(* ---- finer endpoint model (C13_EpFine.v: GetOrCreate callers as threads stepping between the verif yield
+   points and the creation mutex) ---- *)
+
+(* On the unchanged code the creator returns the endpoint it built without re-examining it: a health
+   invalidation between generation capture and registration is lost (the endpoint is handed out, not dead,
+   not closed, generation-stale) ... *)
+Theorem C13_fine_handout_invalidated_refuted :
+  In 0 (f_inval (frun fine_w1_thr fine_w1_pre)) /\ f_hand (frun fine_w1_thr fine_w1_pre) = []
+  /\ f_hand (frun fine_w1_thr fine_w1) = [(0, 0)]
+  /\ (exists u, nth_error (p_eps (f_p (frun fine_w1_thr fine_w1))) 0 = Some u
+                /\ u_dead u = false /\ u_closed u = false /\ gen_current (f_p (frun fine_w1_thr fine_w1)) u = false).
+Proof. exact C13_fine_handout_invalidated_proof. Qed.
+Print Assumptions C13_fine_handout_invalidated_refuted.
+
+(* ... and an endpoint retired (write error of a second caller) between publish and register is returned dead. *)
+Theorem C13_fine_handout_dead_refuted :
+  f_hand (frun fine_w2_thr fine_w2) = [(1, 0); (0, 0)]
+  /\ f_hand (frun fine_w2_thr (removelast fine_w2)) = [(1, 0)]
+  /\ (exists u, nth_error (p_eps (f_p (frun fine_w2_thr (removelast fine_w2)))) 0 = Some u /\ u_dead u = true /\ u_conn_closes u = 1).
+Proof. exact C13_fine_handout_dead_proof. Qed.
+Print Assumptions C13_fine_handout_dead_refuted.
 
 Example C13_endpoint_nonvacuous :
   let ops := [PGoc 0 0 0 0; PWrite 0 0; PInval 0; PGoc 1 0 0 1; PGoc 1 0 0 0; PGoc 0 0 1 0; PWrite 0 1; PGoc 0 0 1 0; PReset] in
